@@ -24,9 +24,6 @@ Proof. intros H F. eapply Permutation_Forall; eassumption. Qed.
 Lemma perm_snoc {A} (l : list A) x : Permutation (l ++ [x]) (x :: l).
 Proof. apply Permutation_sym. apply Permutation_cons_append. Qed.
 
-Lemma str_dec (a b : str) : {a = b} + {a <> b}.
-Proof. apply list_eq_dec. apply N.eq_dec. Qed.
-
 Lemma key_dec (a b : str * str) : {a = b} + {a <> b}.
 Proof. decide equality; apply str_dec. Qed.
 
